@@ -1,7 +1,7 @@
 PROP = dict(
     id="C08",
-    lean_modules=["TongoProofs.C08"],
-    gen=[],
+    lean_modules=["TongoProofs.C08", "TongoProofs.C08Gen"],
+    gen=["TlbTypes"],
     spec_ops=(),
     rule="TL: every type with an UnmarshalTL in liteclient (registry re-checked against the source with go/ast on every run) plus "
          "synthetic types for the generic decoder x {valid encodings from the real Marshal, truncation at every offset, bit "
